@@ -86,9 +86,17 @@ def run(ctx):
         base = BASE[: rng.randint(0, len(BASE))] * rng.choice([1, 1, 2, 4])
         a = mutate(rng, base) if rng.random() < 0.5 else base
         b = mutate(rng, a)
-        nl = rng.choice(["\n", "\n", "\r\n"])
-        sa = nl.join(a) + (nl if rng.random() < 0.7 and a else "")
-        sb = nl.join(b) + (nl if rng.random() < 0.7 and b else "")
+        # line endings are chosen independently for the two documents (a formatter turns CRLF into LF) and, now and
+        # then, per line
+        def render(lines):
+            mode = rng.choice(["\n", "\n", "\r\n", "mixed"])
+            out = ""
+            for i, l in enumerate(lines):
+                nl = rng.choice(["\n", "\r\n"]) if mode == "mixed" else mode
+                last = i == len(lines) - 1
+                out += l + (nl if not last or rng.random() < 0.7 else "")
+            return out
+        sa, sb = render(a), render(b)
         rc.append({"id": len(cases) + k, "op": "c16.edits", "before": sa, "after": sb})
     check(ctx, rc)
     ctx.count("random-pairs", len(rc))
@@ -97,4 +105,8 @@ def run(ctx):
 
 
 def search(ctx):
-    pass
+    """the correspondence broke without a failing input in the regular run: more random pairs with another seed"""
+    sub = type(ctx)(ctx.pid, "quick", ctx.seed + 17)
+    sub.oracle, sub.driver = ctx.oracle, ctx.driver
+    run(sub)
+    ctx.failures += sub.failures
